@@ -1,24 +1,33 @@
-TECHNIQUE = 'bounded symbolic execution of LLVM IR lowered to C: CBMC/SAT (cadical), sequential history harness with slab-logging allocFunc/deallocFunc and a ghost chunk-ownership map'
+TECHNIQUE = ('bounded symbolic execution of LLVM IR lowered to C: CBMC/SAT (cadical), sequential history-tree harness with '
+             'slab-logging allocFunc/deallocFunc and a ghost chunk-ownership map')
 ASSUMPTIONS = [
     'chunkSize <= allocSize (at least one chunk per slab); chunkSize > allocSize makes chunksPerAlloc_ 0 and is treated as a precondition violation',
     'documented precondition of clear(): no chunk allocated before clear() is passed to dealloc() afterwards',
     'dealloc() is only called with chunks obtained from alloc() of the same pool that are currently live',
     'allocFunc returns disjoint slabs of the requested size (any byte placement inside a backing arena) and never fails',
 ]
-OUTSIDE = ('histories longer than the stated number of operations; chunk sizes other than 16/32/64 and more than 3 chunks per slab; '
-           'concurrent use of PoolAllocator from 2+ threads (spin-lock mutual exclusion) -- to be covered by a separate cbmc-par/E3 instance by the lead; '
-           'allocFunc failure (nullptr); more than one pool sharing the backing functions')
-_COMMON = {'src': 'pool.cpp', 'engine': 'cbmc', 'repo_sources': ['dispenso/pool_allocator.cpp'],
-           'leak_check': True, 'timeout': 1500}
-INSTANCES = [
-    dict(_COMMON, name='nolock_history', defs={'VF_TS': 0, 'VF_OPS': 6, 'VF_MINCPA': 2}, unwind=8,
-         bounds='NoLockPoolAllocator: chunkSize in {16,32,64}, 2-3 chunks per slab, slab slack 0..chunkSize-1, slab placement gap 0..15 bytes, '
-                'every history of <= 6 operations from alloc / dealloc(any live chunk) / clear, then destruction',
-         thorough={'defs': {'VF_TS': 0, 'VF_OPS': 8, 'VF_MINCPA': 1}, 'unwind': 10,
-                   'bounds': 'NoLockPoolAllocator: chunkSize in {16,32,64}, 1-3 chunks per slab, slab slack 0..chunkSize-1, slab placement gap 0..15 bytes, '
-                             'every history of <= 8 operations from alloc / dealloc(any live chunk) / clear, then destruction'}),
-    dict(_COMMON, name='locked_history', defs={'VF_TS': 1, 'VF_OPS': 6, 'VF_MINCPA': 2}, unwind=8,
-         bounds='PoolAllocator (kThreadSafe=true, real fetch_or/store on the lock word) used from one thread: same space as nolock_history, <= 6 operations',
-         thorough={'defs': {'VF_TS': 1, 'VF_OPS': 8, 'VF_MINCPA': 1}, 'unwind': 10,
-                   'bounds': 'PoolAllocator (kThreadSafe=true) used from one thread: same space as nolock_history thorough, <= 8 operations'}),
-]
+OUTSIDE = ('histories longer than 3 operations (see NOTES.md: the std::vector<char*> heap encoding does not scale further in CBMC); '
+           'chunk sizes other than 16/32/64, 1 chunk per slab or more than 3, slack values other than 0 / 1 / chunkSize-1; '
+           'concurrent use of PoolAllocator from 2+ threads (spin-lock mutual exclusion) -- left for a separate concurrent instance by the lead; '
+           'allocFunc failure (nullptr); several pools sharing the backing functions')
+
+
+def _inst(ts, cs, cpa, slack, tiers):
+    name = '%s_cs%d_x%d_s%d' % ('locked' if ts else 'nolock', cs, cpa, slack)
+    return {'name': name, 'src': 'pool.cpp', 'engine': 'cbmc', 'repo_sources': ['dispenso/pool_allocator.cpp'],
+            'leak_check': True, 'timeout': 300, 'unwind': 8, 'object_bits': 12, 'tiers': tiers,
+            'defs': {'VF_TS': ts, 'VF_OPS': 3, 'VF_CS': cs, 'VF_CPA': cpa, 'VF_SLACK': slack},
+            'bounds': '%s, chunkSize %d, %d chunk(s) per slab, allocSize %d; slab placement gap 0..15 bytes symbolic; every history of <= 3 '
+                      'operations from alloc / dealloc(any live chunk) / clear, followed by destruction'
+                      % ('PoolAllocator (kThreadSafe=true, real fetch_or/store on the lock word, one thread)' if ts
+                         else 'NoLockPoolAllocator', cs, cpa, cs * cpa + slack)}
+
+
+_QUICK = {(0, 16, 2, 0), (0, 32, 3, 31), (0, 64, 2, 1), (0, 16, 3, 15), (1, 32, 2, 0), (1, 64, 3, 63)}
+INSTANCES = []
+for _ts in (0, 1):
+    for _cs in (16, 32, 64):
+        for _cpa in (2, 3):  # 1 chunk per slab: every alloc() reallocates backingAllocs_; CBMC times out (NOTES.md)
+            for _slack in (0, 1, _cs - 1):
+                _q = (_ts, _cs, _cpa, _slack) in _QUICK
+                INSTANCES.append(_inst(_ts, _cs, _cpa, _slack, ['quick', 'thorough'] if _q else ['thorough']))
